@@ -81,6 +81,21 @@ CHECKS = {
          "from_tokens on the library's own text and on mutated token trees.",
          "serde_json's text layer (lexer, escapes, number syntax) is trusted: parse(print t) = t is not proved; serde_json's token interface is modelled, not verified.",
          "DESIGN.md section 6 C15"),
+ "C12": ("Coq theorems C12_record_roundtrip (every normal-form administrative record — status reports with any number of status items of the three "
+         "normal kinds, u32 reason, dtn/ipn/none source, u64 timestamp, optional fragment fields; unknown records with code != 1 and opaque content "
+         "— decodes from its encoding to itself, through the serde visitors that branch on SeqAccess::size_hint, by induction over the definite "
+         "element loop), C12_record_layout (the encoder's bytes are the generic shortest-form serialization of the RFC 9171 section 6.1 item tree of "
+         "Spec/Rfc9171Admin.v), C12_status_report_bundle / _total (for every subject bundle in the decoder's image that is not a fragment and has a "
+         "report-to endpoint, every position 0..3, u32 reason, CRC type 0..2 and clock reading after 2000: new_status_report_bundle returns, without "
+         "panic in checked or wrapping arithmetic, a bundle that passes validate, is an administrative record, goes to the subject's report-to, comes "
+         "from the reporting node, carries the subject's lifetime and the generator's next timestamp, and whose payload decodes to a status report "
+         "naming the subject's source and creation timestamp, asserting exactly the requested item, with the status time = clock reading iff the "
+         "subject requested status times, and the requested reason), C12_fragment_unimplemented / C12_no_report_to_panics (the two excluded inputs "
+         "abort, as modelled); K-adm channel: ADMENC/ADMSPEC/ADMDEC on generated normal-form records against an independent Python encoding of the "
+         "section 6.1 layout, SRB (one fresh process per case, clock hook) over C01-domain subjects x 4 positions x 3 CRC types x reasons x "
+         "status-time flag, plus agreement-only malformed / out-of-domain streams, debug and release builds.",
+         "serde Vec/bool/u32 visitors and serde_cbor size_hint modelled, not verified; clock after 2000-01-01 and < 2^64 ms; reporting node's EID "
+         "valid; fewer than 2^64-1 timestamps per millisecond; subject's source name < 2^64 bytes.", "DESIGN.md section 6 C12"),
  "C16": ("Coq theorems C16_ippt (for every scope-flag value < 8, every primary without CRC, every target block of any type and every security "
          "header the transcription of IntegrityProtectedPlaintext::create equals the RFC 9173 3.7 concatenation written with the generic CBOR "
          "writer; C16_ippt_raw_flags says what happens beyond bit 2), C16_result_shape (compute_hmac yields exactly one (1, HMAC-SHA2(key, ippt)) "
@@ -105,7 +120,7 @@ CHECKS = {
 
 PENDING = {
 
- "C11": "check not built yet", "C12": "check not built yet", "C13": "check not built yet", "C14": "check not built yet",
+ "C11": "check not built yet","C13": "check not built yet", "C14": "check not built yet",
  "C19": "check not built yet", "C20": "check not built yet",
 }
 
